@@ -93,7 +93,8 @@ def body(ctx):
             for ra, rb in brs[:: ctx.q(2, 1)]:
                 plan.append("m2 %s %s 0 %s %s - -" % (op, t, ra, rb))
         # parity and identities: class lattice + random, each row and its negation
-        vals = vf.float_lattice(bits) + [rng.getrandbits(bits) for _ in range(ctx.q(400, 100000))]
+        # (the special-value list holds the overflow / case-analysis thresholds of every function: both signs must take the same branch)
+        vals = vf.float_lattice(bits) + specials(bits, rng) + [rng.getrandbits(bits) for _ in range(ctx.q(400, 100000))]
         for e in range(0, 1 << E, ctx.q(4 if E == 8 else 32, 1 if E == 8 else 2)):
             for m in (0, 1, (1 << M) - 1, 1 << (M - 1), 0x2AAAAAAAAAAAAA & ((1 << M) - 1), 0x155555 & ((1 << M) - 1)):
                 vals.append((e << M) | m)
